@@ -390,3 +390,40 @@ pub fn replay_gc(rest: &[String]) -> anyhow::Result<()> {
     }
     out.finish()
 }
+
+/// vh record sess <out.ndjson> --seed S --n N --chunks C --stmts K: random sessions (several
+/// chunks on one module + evaluator, any subset failing); one record per session for
+/// Trace_Session.tla: {"a":"session","id","chunks":[ast...],"res":[{out,kind,line,stack,locks}...]}
+pub fn record_sessions(rest: &[String]) -> anyhow::Result<()> {
+    let mut out = util::NdWriter::create(&rest[0])?;
+    let seed = util::opt_u64(rest, "--seed", 1);
+    let n = util::opt_u64(rest, "--n", 50);
+    let nchunks = util::opt_u64(rest, "--chunks", 5);
+    let stmts = util::opt_u64(rest, "--stmts", 4) as usize;
+    let globals = run::globals();
+    let mut statics = 0;
+    for i in 0..n {
+        let mut rng = util::Rng(seed.wrapping_mul(9_000_011).wrapping_add(i));
+        let mut chunks: Vec<J> = Vec::new();
+        {
+            let mut g = gen::Gen::new(&mut rng);
+            g.set_fail_rate(40);
+            for _ in 0..nchunks {
+                let k = 1 + g.rng.below(stmts as u64) as usize;
+                chunks.push(J::Array(g.block(k, 2)));
+            }
+        }
+        let res = match util::catch(std::panic::AssertUnwindSafe(|| run_session(&mut chunks, &globals, None))) {
+            Ok(r) => r,
+            Err(p) => vec![json!({"out": [], "kind": "panic", "line": 0, "msg": p, "stack": 0, "locks": 0})],
+        };
+        if res.iter().any(|r| is_static(r["kind"].as_str().unwrap_or(""), r["msg"].as_str().unwrap_or(""))) {
+            statics += 1;
+            continue;
+        }
+        out.write(&json!({"a": "session", "id": format!("ss{}n{}", seed, i), "chunks": chunks, "res": res}))?;
+    }
+    out.finish()?;
+    println!("{}", json!({"sessions": n, "static_rejected": statics}));
+    Ok(())
+}
